@@ -26,6 +26,10 @@ func sightline(context *api.Context, from b6.Geometry, radius float64) (b6.Area,
 		return nil, fmt.Errorf("sightline: radius must be greater than 0, found %f", radius)
 	}
 	if centroid, ok := b6.Centroid(from); ok {
+		if !centroid.IsUnit() {
+			// For example, the centroid of an area without any polygons
+			return nil, fmt.Errorf("sightline: geometry has no centroid")
+		}
 		return b6.AreaFromS2Polygon(Sightline(centroid, b6.MetersToAngle(radius), context.World)), nil
 	}
 	return b6.InvalidArea{}, nil
